@@ -2,6 +2,7 @@ package c15
 
 import (
 	"bytes"
+	"sort"
 	"context"
 	"encoding/binary"
 	"errors"
@@ -420,53 +421,70 @@ func (s *seenTypes) note(scope string, fork int, recv reflect.Value) {
 }
 
 // uncovered lists, per receiver type met while walking the table, the exported methods the table
-// does not mention: `own` are declared by zrnt on the type itself, `generic` are promoted from the
-// embedded ztyp view (Get/Set/Append/Serialize/…), which every typed accessor is built on.
+// does not mention: `own` are declared by zrnt on the type itself; the rest are promoted from the
+// embedded ztyp view (Get/Set/Append/Serialize/…), on which every typed accessor is built — those
+// are listed once per embedded type.
 func uncovered(tab *Table, seen *seenTypes) map[string]any {
-	out := map[string]any{}
+	own := map[string]any{}
+	notInvoked := map[string]any{}
+	generic := map[string]map[string]bool{}
+	receivers := map[string][]string{}
 	for key, t := range seen.m {
 		scope := key
 		if strings.HasPrefix(key, "state:") {
 			scope = "state"
 		}
+		name := t.String() + " [" + scope + "]"
 		listed := tab.Methods(scope, -1)
-		generic := map[string]bool{}
+		promoted := map[string]string{}
 		if t.Kind() == reflect.Ptr && t.Elem().Kind() == reflect.Struct {
 			for i := 0; i < t.Elem().NumField(); i++ {
 				f := t.Elem().Field(i)
 				if !f.Anonymous {
 					continue
 				}
-				ft := f.Type
-				for j := 0; j < ft.NumMethod(); j++ {
-					generic[ft.Method(j).Name] = true
+				for j := 0; j < f.Type.NumMethod(); j++ {
+					promoted[f.Type.Method(j).Name] = f.Type.String()
 				}
+				receivers[f.Type.String()] = append(receivers[f.Type.String()], name)
 			}
 		}
-		var own, gen []string
+		mine := []string{}
+		ztypOwn := t.Kind() == reflect.Ptr && strings.Contains(t.Elem().PkgPath(), "/ztyp/")
 		for i := 0; i < t.NumMethod(); i++ {
 			n := t.Method(i).Name
 			if _, ok := listed[n]; ok {
 				continue
 			}
-			if generic[n] {
-				gen = append(gen, n)
+			if ztypOwn {
+				promoted[n] = t.String()
+			}
+			if emb, ok := promoted[n]; ok {
+				if generic[emb] == nil {
+					generic[emb] = map[string]bool{}
+				}
+				generic[emb][n] = true
 			} else {
-				own = append(own, n)
+				mine = append(mine, n)
 			}
 		}
+		own[name] = mine
 		var skipped []string
 		for _, r := range tab.ByScop[scope] {
 			if r.Kind == "skip" {
 				if _, ok := t.MethodByName(r.Method); ok {
-					skipped = append(skipped, r.Method+" ("+r.Effect+")")
+					skipped = append(skipped, r.Method+": "+r.Effect)
 				}
 			}
 		}
-		if own == nil {
-			own = []string{}
+		if skipped != nil {
+			notInvoked[name] = skipped
 		}
-		out[t.String()+" ["+scope+"]"] = map[string]any{"own": own, "generic_ztyp": gen, "listed_not_invoked": skipped}
 	}
-	return out
+	gen := map[string]any{}
+	for emb, ms := range generic {
+		sort.Strings(receivers[emb])
+		gen[emb] = map[string]any{"methods": sortedKeys(ms), "promoted_into": receivers[emb]}
+	}
+	return map[string]any{"own_methods_not_in_table": own, "generic_ztyp_methods_not_in_table": gen, "in_table_as_not_an_accessor": notInvoked}
 }
